@@ -30,7 +30,7 @@ def run(ctx, rep) -> None:
     # (clause: the finalizer is not withdrawn under a live matching daemon before backoff + timeout have passed)
     from concurrent.futures import ProcessPoolExecutor
     from vf import daemons as D
-    dscs = D.gen_scenarios(ctx.seed, 260 if ctx.quick else 3000)
+    dscs = D.crafted() + D.gen_scenarios(ctx.seed, 260 if ctx.quick else 3000)
     with ProcessPoolExecutor(16) as ex:
         dtraces = list(ex.map(D.run_scenario, dscs, chunksize=4))
     dv = D.judge(dtraces, rep, focus='finalizer_released_while_daemon_alive')
@@ -40,3 +40,10 @@ def run(ctx, rep) -> None:
             rep.nontrivial([t['conf'], [{k: v for k, v in e.items() if k != 't'} for e in t['events']]])
         if dv[t['id']] == 'finalizer_released_while_daemon_alive':
             rep.violation(f'{t["id"]}: the finalizer was released while a matching daemon was alive and not yet abandoned', payload=t)
+    # ... and step conformance with Spawning.tla (Trace_Spawning): every write of the finalizer must be the one the specification
+    # makes in that state and at that instant; its invariant FinalizerHeld is evaluated in every state
+    sv = D.judge_spawning(dtraces, rep)
+    for t in dtraces:
+        v = sv[t['id']]['verdict']
+        if v == 'FinalizerHeld' or (v.startswith('rejected') and "'ev': 'json'" in v):
+            rep.violation(f'{t["id"]}: {v}', payload=t['spawning'])
